@@ -11,6 +11,7 @@
   `docInterior` is `minUpdateInteriorDistanceMaxError` in exact arithmetic, evaluated at the TRUE distance.
 -/
 import S2Proofs.C17Err.InteriorChain
+import S2Proofs.FloatErr3.Normalize
 
 set_option linter.unusedSimpArgs false
 set_option linter.unusedVariables false
@@ -122,48 +123,88 @@ theorem zero3_facts : Fin3 zero3 ∧ vecR zero3 = ⟨0, 0, 0⟩ := by
   unfold vecR zero3
   simp only [hv]
 
-/-- for a non-degenerate edge `PointCross` does not take its `ortho` branch -/
+/-- the threshold of the repaired `PointCross` (D60): finite, and at most `2^-95` (it is ≈ 2^-95.7) -/
+theorem pcThr_facts : Fin pointCrossMinNorm2 ∧ toInt pointCrossMinNorm2 ≤ 2 ^ 979 := by decide +kernel
+
+theorem pcThr_val_le : val pointCrossMinNorm2 ≤ 1 / 2 ^ 95 := by
+  have h : ((toInt pointCrossMinNorm2 : ℤ) : ℝ) ≤ 2 ^ 979 := by exact_mod_cast pcThr_facts.2
+  unfold val
+  rw [div_le_div_iff₀ (by positivity) (by positivity)]
+  calc ((toInt pointCrossMinNorm2 : ℤ) : ℝ) * 2 ^ 95 ≤ 2 ^ 979 * 2 ^ 95 := mul_le_mul_of_nonneg_right h (by positivity)
+    _ = 1 * 2 ^ 1074 := by rw [one_mul, ← pow_add]
+
+/-- THE BRIDGE for the float-error proofs (repair D60): a finite float vector whose exact squared length is at least `2^-94`
+    (and at most `2^960`) passes the threshold test of `PointCross` -/
+theorem ge_thr_of_n2 (v : V3) (hv : Fin3 v) (hlo : 1 / 2 ^ 94 ≤ (vecR v).n2) (hhi : (vecR v).n2 ≤ 2 ^ 960) :
+    F64.ge v.norm2 pointCrossMinNorm2 = true := by
+  have e : FE3.n2R v = (vecR v).n2 := by unfold FE3.n2R vecR R3.n2 R3.dot; ring
+  have hlo' : 1 / 2 ^ 960 ≤ FE3.n2R v := by
+    rw [e]; refine le_trans ?_ hlo
+    exact one_div_le_one_div_of_le (by positivity) (pow_le_pow_right₀ (by norm_num) (by norm_num))
+  obtain ⟨fn, hn⟩ := FE3.NormAux.norm2_float v hv hlo' (by rw [e]; exact hhi)
+  rw [ge_val fn pcThr_facts.1]
+  rw [e] at hn
+  have h1 := (abs_le.mp hn).1
+  have hu : 3 * uR + 4 * uR ^ 2 ≤ 1 / 2 := by unfold uR; norm_num
+  have hpos : (0 : ℝ) ≤ (vecR v).n2 := le_trans (by positivity) hlo
+  have h2 : (1 : ℝ) / 2 ^ 95 ≤ 1 / 2 * (vecR v).n2 := by
+    have : (1 : ℝ) / 2 ^ 95 = 1 / 2 * (1 / 2 ^ 94) := by norm_num
+    rw [this]; exact mul_le_mul_of_nonneg_left hlo (by norm_num)
+  have h3 : (3 * uR + 4 * uR ^ 2) * (vecR v).n2 ≤ 1 / 2 * (vecR v).n2 := mul_le_mul_of_nonneg_right hu hpos
+  have := pcThr_val_le
+  linarith
+
+/-- for a non-degenerate edge (`EdgeOK`: |2a×b|² ≥ 2^-68) the repaired `PointCross` returns the float formula: its float
+    squared norm (≥ 2^-71) is far above `pointCrossMinNorm2` (≈ 2^-95.7), the exact fallback is not taken -/
 theorem pointCross_eq {δ : ℝ} (hδ0 : 0 ≤ δ) (hδ : δ ≤ delta0) {a b : V3} (ha : UnitWithin δ a) (hb : UnitWithin δ b)
     (hE : EdgeOK a b) : pointCross a b = pcRaw a b := by
-  obtain ⟨fc, _, hvec⟩ := pcRaw_spec hδ0 hδ ha hb hE
-  unfold pointCross
-  have hfeq : V3.feq ((a.add b).cross (b.sub a)) zero3 = false := by
-    cases hq : V3.feq ((a.add b).cross (b.sub a)) zero3
-    · rfl
-    · exfalso
-      obtain ⟨fz3, vz⟩ := zero3_facts
-      have h1 := (v3feq_iff (u := pcRaw a b) fc fz3).mp hq
-      -- all components of the computed vector are zero
-      have hcomp : vecR (pcRaw a b) = vecR zero3 := by
-        unfold vecR val
-        have e1 : toInt (pcRaw a b).x = toInt zero3.x := by
-          have := congrArg IV3.x h1; simpa [ofV3] using this
-        have e2 : toInt (pcRaw a b).y = toInt zero3.y := by
-          have := congrArg IV3.y h1; simpa [ofV3] using this
-        have e3 : toInt (pcRaw a b).z = toInt zero3.z := by
-          have := congrArg IV3.z h1; simpa [ofV3] using this
-        rw [e1, e2, e3]
-      rw [hcomp, vz] at hvec
-      have e : (R3.sub ⟨0, 0, 0⟩ (vC a b)).n2 = (vC a b).n2 := by unfold R3.sub R3.n2 R3.dot; ring
-      rw [e, ← R3.len_sq] at hvec
-      have hLC : 1 / 2 ^ 34 ≤ (vC a b).len := by
-        unfold EdgeOK at hE
-        unfold R3.len
-        apply Real.le_sqrt_of_sq_le
-        have e : ((1 : ℝ) / 2 ^ 34) ^ 2 = 1 / 2 ^ 68 := by rw [div_pow, one_pow, ← pow_mul]
-        rw [e]; exact hE
-      have hpos : 0 < (vC a b).len := lt_of_lt_of_le (by positivity) hLC
-      have hη : etaC ≤ 1 / 2 := by
-        have h1 := etaC_theta; have h2 := theta0_le; have h0 := etaC_pos
-        have h3 : etaC ≤ etaC * (1 + etaC) := by nlinarith
-        have h4 : (44642 : ℝ) / 10000 * uR ≤ 1 / 2 := by unfold uR; norm_num
-        linarith
-      have : (etaC * (vC a b).len) ^ 2 ≤ (1 / 2 * (vC a b).len) ^ 2 :=
-        pow_le_pow_left₀ (mul_nonneg etaC_pos.le hpos.le) (mul_le_mul_of_nonneg_right hη hpos.le) 2
-      nlinarith
-  show (if V3.feq ((a.add b).cross (b.sub a)) zero3 = true then a.ortho else (a.add b).cross (b.sub a)) = pcRaw a b
-  rw [hfeq]
-  rfl
+  obtain ⟨fc, mc, hvec⟩ := pcRaw_spec hδ0 hδ ha hb hE
+  apply pointCross_eq_float_of_ge
+  show F64.ge (pcRaw a b).norm2 pointCrossMinNorm2 = true
+  have hLC : 1 / 2 ^ 34 ≤ (vC a b).len := by
+    unfold EdgeOK at hE
+    unfold R3.len
+    apply Real.le_sqrt_of_sq_le
+    have e : ((1 : ℝ) / 2 ^ 34) ^ 2 = 1 / 2 ^ 68 := by rw [div_pow, one_pow, ← pow_mul]
+    rw [e]; exact hE
+  have hpos : 0 < (vC a b).len := lt_of_lt_of_le (by positivity) hLC
+  have hη : etaC ≤ 1 / 2 := by
+    have h1 := etaC_theta; have h2 := theta0_le; have h0 := etaC_pos
+    have h3 : etaC ≤ etaC * (1 + etaC) := by nlinarith
+    have h4 : (44642 : ℝ) / 10000 * uR ≤ 1 / 2 := by unfold uR; norm_num
+    linarith
+  -- |pcRaw| ≥ |C| − |pcRaw − C| ≥ |C|/2
+  have hd : (R3.sub (vecR (pcRaw a b)) (vC a b)).len ≤ 1 / 2 * (vC a b).len := by
+    have h1 : (R3.sub (vecR (pcRaw a b)) (vC a b)).len ≤ etaC * (vC a b).len := by
+      unfold R3.len at *
+      apply Real.sqrt_le_iff.mpr
+      exact ⟨mul_nonneg etaC_pos.le (Real.sqrt_nonneg _), hvec⟩
+    exact le_trans h1 (mul_le_mul_of_nonneg_right hη hpos.le)
+  have htri : (vC a b).len ≤ (vecR (pcRaw a b)).len + (R3.sub (vecR (pcRaw a b)) (vC a b)).len := by
+    have h := (abs_le.mp (len_sub_le (vecR (pcRaw a b)) (vC a b))).1
+    linarith
+  have hlen : 1 / 2 ^ 35 ≤ (vecR (pcRaw a b)).len := by
+    have : (1 : ℝ) / 2 ^ 35 = 1 / 2 * (1 / 2 ^ 34) := by norm_num
+    rw [this]; linarith
+  have hn2 : 1 / 2 ^ 94 ≤ (vecR (pcRaw a b)).n2 := by
+    rw [← R3.len_sq]
+    have h70 : (1 : ℝ) / 2 ^ 70 = 1 / 2 ^ 35 * (1 / 2 ^ 35) := by norm_num
+    have h94 : (1 : ℝ) / 2 ^ 94 ≤ 1 / 2 ^ 70 :=
+      one_div_le_one_div_of_le (by positivity) (pow_le_pow_right₀ (by norm_num) (by norm_num))
+    have := mul_le_mul hlen hlen (by positivity) (R3.len_nonneg _)
+    linarith
+  have hhi : (vecR (pcRaw a b)).n2 ≤ 2 ^ 960 := by
+    obtain ⟨m1, m2, m3⟩ := mc
+    have q1 : val (pcRaw a b).x ^ 2 ≤ 25 := by nlinarith [abs_le.mp m1]
+    have q2 : val (pcRaw a b).y ^ 2 ≤ 25 := by nlinarith [abs_le.mp m2]
+    have q3 : val (pcRaw a b).z ^ 2 ≤ 25 := by nlinarith [abs_le.mp m3]
+    have e : (vecR (pcRaw a b)).n2 = val (pcRaw a b).x ^ 2 + val (pcRaw a b).y ^ 2 + val (pcRaw a b).z ^ 2 := by
+      unfold vecR R3.n2 R3.dot; ring
+    have hb : (75 : ℝ) ≤ 2 ^ 960 := by
+      calc (75 : ℝ) ≤ 2 ^ 7 := by norm_num
+        _ ≤ 2 ^ 960 := pow_le_pow_right₀ (by norm_num) (by norm_num)
+    rw [e]; refine le_trans ?_ hb; linarith
+  exact ge_thr_of_n2 _ fc hn2 hhi
 
 
 /-- sine² + cosine² of the latitude of `X` w.r.t. the normal `c` -/
